@@ -57,6 +57,13 @@ def _train_vectors(rng, n_random):
     out = []
     grid = [i / 20 for i in range(21)] + [0.25, 0.25, 0.5, 1.0, 0.0]
     out.append(("grid+ties", grid))
+    # top-/bottom-coded data: a large share of the observations sits exactly on the minimum / maximum, so that
+    # quantile-derived interior knots coincide with the bounds
+    inner = [round(0.05 + 0.9 * rng.random(), 3) for _ in range(10)]
+    out.append(("coded-both", [0.0] * 7 + inner + [1.0] * 8))
+    if n_random > 1:
+        out.append(("coded-top", [0.0] + inner + [1.0] * 9))
+        out.append(("coded-bottom", [0.0] * 9 + inner + [1.0]))
     for j in range(n_random):
         n = rng.randint(9, 30)
         v = [round(rng.random(), 3) for _ in range(n)]
@@ -90,7 +97,8 @@ def _pairs(trains, maps, thorough):
     return [(t, maps[i % len(maps)]) for i, t in enumerate(trains)]
 
 
-BS_KNOTS = ([0.5], [0.25, 0.5, 0.75], [0.5, 0.5], [0.3, 0.3, 0.3], [0.2, 0.4, 0.6, 0.8], [0.1, 0.1, 0.9])
+BS_KNOTS = ([0.5], [0.25, 0.5, 0.75], [0.5, 0.5], [0.3, 0.3, 0.3], [0.2, 0.4, 0.6, 0.8], [0.1, 0.1, 0.9],
+            [0.5, "UB"], ["LB", 0.5], ["LB", "LB", 0.5, "UB"])  # "LB"/"UB": a breakpoint equal to the lower/upper bound
 BOUNDS = {"data": (None, None), "wider": (-0.25, 1.5), "narrower": (0.2, 0.8), "narrow": (0.4, 0.6),
           "lower-only": (-0.25, None)}
 
@@ -108,10 +116,11 @@ def _bs_cases(rng, thorough):
             if skind == "none" and degree == 0 and not icpt:
                 continue  # no columns at all
             if skind == "knots":
-                lo = lb0 if lb0 is not None else 0.0
-                hi = ub0 if ub0 is not None else 1.0
-                if not all(lo < k < hi for k in sval):
-                    continue  # breakpoints must be interior to the bounds
+                lo = lb0 if lb0 is not None else min(tv)
+                hi = ub0 if ub0 is not None else max(tv)
+                sval = [lo if k == "LB" else hi if k == "UB" else k for k in sval]
+                if not all(lo <= k <= hi for k in sval):
+                    continue  # breakpoints must lie within the bounds (they may coincide with them)
             x = list(tv)
             if tname.startswith("random") and rng.random() < 0.3:
                 x.insert(rng.randint(0, len(x)), float("nan"))
@@ -138,6 +147,8 @@ CUBIC_BOUNDS = {"data": (None, None), "wider": (-0.25, 1.5), "narrower": (0.2, 0
 def _cubic_cases(rng, thorough):
     maps = [(0.0, 1.0), (-5.0, 10.0)] + ([(100.0, 0.01), (0.0, 1000.0)] if thorough else [])
     trains = _train_vectors(rng, 4 if thorough else 1)
+    if not thorough:  # the cubic transforms pick knots from the *distinct* values: coded vectors add little there
+        trains = [t for t in trains if not t[0].startswith("coded")]
     cases = []
     for cyclic, centred, (bname, (lb0, ub0)), mode in itertools.product((False, True), (False, True),
                                                                         CUBIC_BOUNDS.items(), MODES):
@@ -307,7 +318,9 @@ def run_bounded(ctx):
         "A-float(C12): values compared with abs tolerance 1e-10*(1+max|row|) inside the bounds (bs), 1e-9 (cubic: linear "
         "solves), 1e-8 relative to the largest entry for polynomial continuation outside the bounds",
         "A-zero-mode(C12): extrapolation='zero' is read as 'the basis row of an out-of-range value is all zeros'",
-        "A-knots-input(C12): explicit breakpoints are given sorted and strictly inside the bounds; df >= its documented "
+        "A-knots-input(C12): explicit breakpoints are given sorted and within the bounds (they may equal a bound); at "
+        "a bound that carries such a tied knot the value AT the bound may follow either boundary convention and "
+        "'extend' beyond it is not judged (counted in the notes); df >= its documented "
         "minimum; rows of null inputs are not judged (other rows must be unaffected)",
         "A-extend-cubic(C12): 'extend' for cr = linear continuation of the natural spline, for cc = periodic wrap",
     )
@@ -321,17 +334,19 @@ def run_bounded(ctx):
              "{from data, wider, narrower than data (2 widths), lower only} x include_intercept x 5 extrapolation modes x training "
              "vectors x affine maps; each = fit + replay on a grid (knots, knots+-1e-6, bounds, bounds+-1e-7/-9, "
              "midpoints, far outside, NaN); distinct = (configuration, training vector)",
-        bound="configurations fully crossed; " + ("5 training vectors x 5 affine maps" if thorough else "2 training vectors, each under one of 2 affine maps"),
+        bound="configurations fully crossed; " + ("8 training vectors (grid with ties, top-/bottom-/both-coded, random) x 5 affine maps" if thorough else "3 training vectors (grid with ties, both-coded, random), each under one of 2 affine maps"),
     ) as b:
         rep = Reporter(ctx, b)
         cases = _bs_cases(rng, thorough)
         notes = Counter()
         merge(b, rep, pmap(_worker, [("bs", ch) for ch in _grouped_chunks(cases, 64)]), notes)
         for k, v in sorted(notes.items()):
-            if k[0] == "note":
+            if k[0] == "note" and "knot-vector" in k[1]:
                 ctx.notes.append(f"bounded:bs: NOT judged as violation, {v} configuration(s): {k[1]} (the recorded knot "
                                  "vector is not non-decreasing because quantile knots of the data fall outside the explicit "
                                  "bounds; design-matrix equality is undefined there, the other clauses were still judged)")
+            elif k[0] == "note":
+                ctx.notes.append(f"bounded:bs: NOT judged, {v} configuration(s): {k[1]}")
         rep.close()
 
     with ctx.bounded(
@@ -339,7 +354,7 @@ def run_bounded(ctx):
         rule="{cr, cc} x {df in {min..min+2, min+4}, 5 explicit inner-knot lists} x bounds {data, wider, narrower} x "
              "constraints {none, 'center'} x 5 extrapolation modes x training vectors x affine maps; fit + replay on a "
              "grid containing the recorded knots (identity rows); distinct = (configuration, training vector)",
-        bound="configurations fully crossed; " + ("5 training vectors x 4 affine maps" if thorough else "2 training vectors, each under one of 2 affine maps"),
+        bound="configurations fully crossed; " + ("8 training vectors x 4 affine maps" if thorough else "2 training vectors, each under one of 2 affine maps"),
     ) as b:
         rep = Reporter(ctx, b)
         cases = _cubic_cases(rng, thorough)
